@@ -15,9 +15,9 @@ CHUNKS = [1, 2, 3, 7, 256]
 ITERS = [1, 2, 3, 64]
 
 
-def cfg_sampler(ctx, thorough, extra=None):
+def cfg_sampler(ctx, thorough, extra=None, n_override=None):
     def cfgs(vi, rnd):
-        n = 15 if thorough else 3
+        n = n_override or (15 if thorough else 3)
         out = []
         scheds = list(e1suite.SCHEDS); rnd.shuffle(scheds)
         for i in range(n):
@@ -60,8 +60,9 @@ def run(ctx):
 
     def one(j):
         i, seed, variants, probe = j
-        if probe == 'neg-step': variants = variants[:1]
-        return S.do_program(i, seed, variants, cfg_sampler(ctx, thorough), allow=((probe,) if probe else ()))
+        if probe in ('neg-step', 'empty-gather'): variants = variants[:1] if probe == 'neg-step' else variants
+        # a known-finding probe costs a stall time-out per run: one configuration per variant is enough to keep it observed
+        return S.do_program(i, seed, variants, cfg_sampler(ctx, thorough, n_override=(1 if probe else None)), allow=((probe,) if probe else ()))
 
     allres = ctx.pmap(one, jobs, jobs=6)
     for rs in allres: S.account(rs)
